@@ -4,6 +4,9 @@ J1  a pair is joined iff the keys are equal AND the two rows come from different
 J2  the join built-in zeroes every wire of a non-matching row and sorts on the flag bit before concatenating
 J3  the for-join body obeys the panic-record and environment protocols (C02-P2, C14-E4)
 J4  the number of emitted rows and the declared result size derive from the same two array sizes
+J5  shape of the bitonic network: power-of-two stride used for partner index and split, compare-exchange of [i] / [i+stride],
+    min -> [i] and max -> [i+stride] swapped exactly on the descending edge, both halves merged in the same direction,
+    sorter = sort(lower, !dir); sort(upper, dir); merge(all, dir), 2-sorter = condswap(gt(x, y), x_i, y_i) returned as (min, max)
 """
 from .. import mir
 from ..core import AnchorMissing, Finding, RuleResult
@@ -19,10 +22,12 @@ LEVEL_TEXT = (
     "(J2) in the join built-in every wire of a row except the flag goes through push_mux(join_eq, wire, 0) and "
     "push_bitonic_sorter(1, rows) lies on every path between the merge and concat(); (J3) the for-join closure satisfies the "
     "panic-record and environment protocols (effects and panics only for joined pairs); (J4) the rows are taken from windows(2) "
-    "skipping exactly the padding rows that were pushed, and the declared result size is (size a + size b) - 1.")
+    "skipping exactly the padding rows that were pushed, and the declared result size is (size a + size b) - 1; (J5) eight shape "
+    "clauses of the compare-exchange network that are necessary for a bitonic sorter of arbitrary length (stride a power of two, "
+    "operand order and min/max placement, direction swap, directions of the recursive calls, 2-sorter wiring).")
 LEVEL_NOTE = "Trusted: rustc MIR; push_eq_circuit / push_bitonic_merger compute what their names say (not decided)."
-EXPLANATION = "Functions analysed: compile::compile_bitonic_merge, the Join arm and the JoinLoop closure of the lowering, check::join_array_size."
-NOT_DECIDED = "the sorting network itself; ascending order of the executed pairs; exactly-once for all sizes"
+EXPLANATION = "Functions analysed: compile::compile_bitonic_merge, the Join arm and the JoinLoop closure of the lowering, check::join_array_size, CircuitBuilder::{push_bitonic_merger, push_bitonic_sorter_inner, push_sorter}."
+NOT_DECIDED = "that the network sorts (only its shape clauses J5 are decided); push_gt_circuit; ascending order of the executed pairs; exactly-once for all sizes"
 ASSUMPTIONS = []
 
 MERGE = "compile::compile_bitonic_merge"
@@ -216,5 +221,211 @@ def rule_j4(ctx):
     return res
 
 
+MERGER = "circuit::CircuitBuilder::push_bitonic_merger"
+SORTER_INNER = "circuit::CircuitBuilder::push_bitonic_sorter::push_bitonic_sorter_inner"
+SORTER2 = "circuit::CircuitBuilder::push_sorter"
+POW2 = ("next_power_of_two", "checked_next_power_of_two", "pow", "ilog2", "leading_zeros", "is_power_of_two")
+
+
+def _keys(body, op, depth=3):
+    return {(r, tuple(p)) for (r, p) in body.deep_sources(op, depth)}
+
+
+def _is_pow2_derived(body, op):
+    for (r, p) in body.deep_sources(op, 4):
+        if r[0] == "call" and mir.last_seg(r[2] or "") in POW2:
+            return True
+        if r[0] == "rv" and r[1] == "binop":
+            rv = body.blocks[r[2]]["stmts"][r[3]]["rv"]
+            if rv["op"] in ("Shl", "ShlUnchecked") and rv["l"]["k"] == "const" and rv["l"].get("val") == 1:
+                return True
+    return False
+
+
+def rule_j5(ctx):
+    """Shape of the compare-exchange network (necessary conditions of a bitonic sorter for arbitrary lengths)."""
+    res = RuleResult("J5", "shape of the bitonic network: power-of-two stride, min/max placement, directions of the recursion")
+    body = ctx.body(MERGER)
+    arr = ("arg", 4)
+    # N1: stride
+    splits = [(b, t) for b, t in body.calls() if mir.last_seg(mir.callee(t) or "").startswith("split_at")]
+    sorters = [(b, t) for b, t in body.calls() if mir.callee(t) == SORTER2]
+    if len(splits) != 1 or len(sorters) != 1:
+        raise AnchorMissing("J5: push_bitonic_merger no longer has one compare-exchange call and one split (%d, %d)" % (len(sorters), len(splits)))
+    sb, st_ = splits[0]
+    stride = st_["args"][1]
+    if not _is_pow2_derived(body, stride):
+        res.bad(Finding("J5", MERGER, "stride is not a power of two", "the partner distance / split point of the merger is not derived from a power-of-two computation "
+                        "(a bitonic merger for arbitrary lengths needs the greatest power of two below the length)", st_["sp"]))
+    else:
+        res.ok({"clause": "N1", "verdict": "split point derives from a power-of-two computation"})
+    skeys = {(r, tuple(p_)) for (r, p_) in body.trace_operand(stride)}
+    # index places into the array
+    reads, writes = [], []
+    for b, blk in enumerate(body.blocks):
+        if blk["cleanup"]:
+            continue
+        for st in blk["stmts"]:
+            if st["k"] != "assign":
+                continue
+            for (pl, lst) in ((st["place"], writes), (st["rv"].get("place") if st["rv"]["k"] == "ref" else None, reads)):
+                if pl and pl["l"] == 4 and any(e["k"] == "index" for e in pl["p"]):
+                    idx = [e for e in pl["p"] if e["k"] == "index"][0]["local"]
+                    ik = _keys(body, {"k": "copy", "place": {"l": idx, "p": []}})
+                    lst.append((b, st, "far" if skeys and skeys <= ik else "near", ik))
+    bt, tt = sorters[0]
+
+    # operands of the compare-exchange: (near, far)
+    kinds = []
+    for a in tt["args"][2:4]:
+        k = set()
+        for (b, st, kind, ik) in reads:
+            if st["place"]["l"] in _ref_chain(body, a):
+                k.add(kind)
+        kinds.append(k)
+    if kinds == [{"near"}, {"far"}]:
+        res.ok({"clause": "N2", "verdict": "compare-exchange of rows [i] and [i + stride]"})
+    else:
+        res.bad(Finding("J5", MERGER, "compare-exchange operands", "the merger must compare row [i] with row [i + stride] in this order; found %s" % kinds, tt["sp"]))
+    # results: .0 (min) -> near, .1 (max) -> far;  swapped exactly when !ascending
+    placed = {}
+    for (b, st, kind, ik) in writes:
+        for (r, p) in body.trace_operand(st["rv"]["op"]) if st["rv"]["k"] == "use" else ():
+            if r[0] == "call" and r[1] == bt and p:
+                placed[kind] = p[0]
+    if placed == {"near": "0", "far": "1"}:
+        res.ok({"clause": "N3", "verdict": "min -> [i], max -> [i + stride]"})
+    else:
+        res.bad(Finding("J5", MERGER, "min / max placement", "the smaller row must be stored at [i] and the larger at [i + stride] (before the direction swap); found %s" % placed, tt["sp"]))
+    swaps = [(b, t) for b, t in body.calls() if mir.callee(t) == "std::mem::swap"]
+    sw_ok = False
+    for b, t in swaps:
+        # guarded by ascending == false
+        for x in range(body.n):
+            tx = body.term(x)
+            if tx and tx["k"] == "switch" and tx["discr"]["k"] in ("copy", "move") and any(r == ("arg", 3) and not p for (r, p) in body.trace_operand(tx["discr"])):
+                zero_t = [tg for v, tg in tx["targets"] if v == 0]
+                if zero_t and C02._dominated_by_edges(body, {(x, zero_t[0])}, b) and zero_t[0] != tx.get("otherwise"):
+                    sw_ok = True
+    if sw_ok:
+        res.ok({"clause": "N4", "verdict": "min and max are swapped exactly on the descending edge"})
+    else:
+        res.bad(Finding("J5", MERGER, "direction swap", "min and max are not swapped on (exactly) the `!ascending` edge", tt["sp"]))
+    # recursion: both halves, same direction
+    recs = [(b, t) for b, t in body.calls() if mir.callee(t) == MERGER]
+    halves = set()
+    dir_ok = True
+    for b, t in recs:
+        for (r, p) in body.trace_operand(t["args"][3]):
+            if r[0] == "call" and r[1] == sb and p:
+                halves.add(p[0])
+        if not any(r == ("arg", 3) and not p for (r, p) in body.trace_operand(t["args"][2])) or len(body.trace_operand(t["args"][2])) != 1:
+            dir_ok = False
+    if halves == {"0", "1"} and len(recs) == 2 and dir_ok:
+        res.ok({"clause": "N5", "verdict": "both halves are merged recursively in the same direction"})
+    else:
+        res.bad(Finding("J5", MERGER, "recursion of the merger", "the merger must recurse into both halves of the split with the unchanged direction; halves %s, direction unchanged %s" % (sorted(halves), dir_ok), body.fn["sp"]))
+    # sorter: lower half opposite direction, upper half same direction, then merge the whole input in that direction
+    sbod = ctx.body(SORTER_INNER)
+    ssplit = [(b, t) for b, t in sbod.calls() if mir.last_seg(mir.callee(t) or "").startswith("split_at")]
+    srec = [(b, t) for b, t in sbod.calls() if mir.callee(t) == SORTER_INNER]
+    smer = [(b, t) for b, t in sbod.calls() if mir.callee(t) == MERGER]
+    if len(ssplit) != 1 or len(srec) != 2 or len(smer) != 1:
+        raise AnchorMissing("J5: push_bitonic_sorter_inner no longer splits once, recurses twice and merges once")
+
+    def direction(op):
+        d = set()
+        for (r, p) in sbod.trace_operand(op):
+            if r == ("arg", 3) and not p:
+                d.add("same")
+            elif r[0] == "rv" and r[1] == "unop":
+                rv = sbod.blocks[r[2]]["stmts"][r[3]]["rv"]
+                if rv.get("op") == "Not" and any(rr == ("arg", 3) and not pp for (rr, pp) in sbod.trace_operand(rv.get("x") or rv.get("op_") or rv.get("operand") or {"k": "const"})):
+                    d.add("opposite")
+                else:
+                    d.add("?")
+            else:
+                d.add("?")
+        return next(iter(d)) if len(d) == 1 else "?"
+    got = {}
+    for b, t in srec:
+        for (r, p) in sbod.trace_operand(t["args"][3]):
+            if r[0] == "call" and r[1] == ssplit[0][0] and p:
+                got[p[0]] = direction(t["args"][2])
+    whole = any(r == ("arg", 4) and not p for (r, p) in sbod.trace_operand(smer[0][1]["args"][3]))
+    mdir = direction(smer[0][1]["args"][2])
+    if got == {"0": "opposite", "1": "same"} and whole and mdir == "same":
+        res.ok({"clause": "N6", "verdict": "sort(lower, !dir); sort(upper, dir); merge(all, dir)"})
+    else:
+        res.bad(Finding("J5", SORTER_INNER, "directions of the bitonic sorter", "expected sort(lower, !dir), sort(upper, dir), merge(whole, dir); found halves %s, merge of the whole input %s in direction %s" % (got, whole, mdir), sbod.fn["sp"]))
+    # the 2-sorter: gt(x, y) selects; (min, max) = condswap(gt, x_i, y_i)
+    b2 = ctx.body(SORTER2)
+    gts = [(b, t) for b, t in b2.calls() if mir.last_seg(mir.callee(t) or "") == "push_gt_circuit"]
+    cs = [(b, t) for b, t in b2.calls() if mir.last_seg(mir.callee(t) or "") == "push_condswap"]
+    if len(gts) != 1 or len(cs) != 1:
+        raise AnchorMissing("J5: push_sorter no longer has one comparison and one conditional swap")
+
+    def side(body_, op):
+        out = set()
+        for (r, p) in body_.deep_sources(op, 3):
+            if r in (("arg", 3), ("arg", 4)):
+                out.add("x" if r == ("arg", 3) else "y")
+        return out
+    g = gts[0][1]
+    c = cs[0][1]
+    sel_ok = any(r[0] == "call" and r[1] == gts[0][0] for (r, p) in b2.trace_operand(c["args"][1]))
+    if [side(b2, g["args"][2]), side(b2, g["args"][3])] == [{"x"}, {"y"}] and sel_ok and [side(b2, c["args"][2]), side(b2, c["args"][3])] == [{"x"}, {"y"}]:
+        res.ok({"clause": "N7", "verdict": "swap selector = gt(x, y); condswap(gt, x_i, y_i)"})
+    else:
+        res.bad(Finding("J5", SORTER2, "2-sorter operands", "the 2-sorter must swap x_i, y_i under gt(x, y) (operands in this order)", c["sp"]))
+    # returned tuple (min, max) = (vector of .0, vector of .1)
+    pushes = {}
+    for b, t in b2.calls():
+        if mir.last_seg(mir.callee(t) or "") == "push" and "Vec" in (mir.callee(t) or ""):
+            for (r, p) in b2.trace_operand(t["args"][1]):
+                if r[0] == "call" and r[1] == cs[0][0] and p:
+                    for (r2, p2) in b2.trace_operand(t["args"][0]):
+                        pushes[p[0]] = r2
+    ret = {}
+    for blk in b2.blocks:
+        for st in blk["stmts"]:
+            if st["k"] == "assign" and st["place"]["l"] == 0 and st["rv"]["k"] == "aggregate" and len(st["rv"]["ops"]) == 2:
+                for i, o in enumerate(st["rv"]["ops"]):
+                    for (r2, p2) in b2.trace_operand(o):
+                        ret[i] = r2
+    if pushes.get("0") is not None and ret.get(0) == pushes.get("0") and ret.get(1) == pushes.get("1") and pushes.get("0") != pushes.get("1"):
+        res.ok({"clause": "N8", "verdict": "push_sorter returns (rows of condswap.0, rows of condswap.1)"})
+    else:
+        res.bad(Finding("J5", SORTER2, "2-sorter results", "the first returned row must collect the first results of the conditional swap, the second the second", b2.fn["sp"]))
+    return res
+
+
+def blk_index(body, b, st):
+    return body.blocks[b]["stmts"].index(st)
+
+
+def _ref_chain(body, op):
+    """locals an operand is a (re)borrow / deref of"""
+    out = set()
+    work = [op["place"]["l"]] if op["k"] in ("copy", "move") else []
+    while work:
+        l = work.pop()
+        if l in out:
+            continue
+        out.add(l)
+        for d in body.defs().get(l, []):
+            if d[0] == "assign":
+                rv = d[3]["rv"]
+                if rv["k"] in ("ref", "copyforderef") :
+                    work.append(rv["place"]["l"])
+                elif rv["k"] == "use" and rv["op"]["k"] in ("copy", "move"):
+                    work.append(rv["op"]["place"]["l"])
+            elif d[0] == "call":
+                t = d[3]
+                if mir.last_seg(mir.callee(t) or "") in ("deref", "deref_mut", "as_slice", "as_ref") and t["args"] and t["args"][0]["k"] in ("copy", "move"):
+                    work.append(t["args"][0]["place"]["l"])
+    return out
+
+
 def run(ctx):
-    return ctx.run_rules([rule_j1, rule_j2, rule_j3, rule_j4])
+    return ctx.run_rules([rule_j1, rule_j2, rule_j3, rule_j4, rule_j5])
